@@ -4,6 +4,7 @@ import (
 	"bytes"
 	"encoding/json"
 	"fmt"
+	"math"
 	"strconv"
 	"time"
 
@@ -88,6 +89,10 @@ func JSONWriteIntProp(b *[]byte, n string, d int64) (notEmpty bool) {
 }
 
 func JSONWriteFloatProp(b *[]byte, n string, f float64) (notEmpty bool) {
+	if math.IsNaN(f) || math.IsInf(f, 0) {
+		// NOTE: JSON has no representation for these, writing them verbatim makes the whole document unparsable
+		return false
+	}
 	return JSONWriteProp(b, n, strconv.AppendFloat(nil, f, 'g', -1, 64))
 }
 
